@@ -365,6 +365,61 @@ pub struct WorkerSim {
     pub processed_s2w: u64,
 }
 
+impl WorkerSim {
+    /// Is a CancelTasks message naming the task waiting in the server->worker queue?
+    pub fn s2w_contains_cancel(&self, task: TaskKey) -> bool {
+        self.s2w.iter().any(|b| {
+            matches!(
+                tako::verif::decode_to_worker_message(b),
+                Ok(ToWorkerMsg::CancelTasks(c)) if c.ids.iter().any(|t| tkey(*t) == task)
+            )
+        })
+    }
+}
+
+/// Batch system of the cluster engine: never asked for anything (no scheduling ticks here)
+struct NullQueueHandler;
+
+impl hyperqueue::server::autoalloc::verif::QueueHandler for NullQueueHandler {
+    fn submit_allocation(
+        &mut self,
+        _queue_id: u32,
+        _queue_info: &hyperqueue::server::autoalloc::verif::QueueInfo,
+        _worker_count: u64,
+        _mode: hyperqueue::server::autoalloc::verif::SubmitMode,
+    ) -> Pin<
+        Box<
+            dyn Future<
+                Output = anyhow::Result<
+                    hyperqueue::server::autoalloc::verif::AllocationSubmissionResult,
+                >,
+            >,
+        >,
+    > {
+        Box::pin(async { Err(anyhow::anyhow!("no batch system in the cluster engine")) })
+    }
+
+    fn get_status_of_allocations(
+        &self,
+        _allocations: &[&hyperqueue::server::autoalloc::Allocation],
+    ) -> Pin<
+        Box<
+            dyn Future<
+                Output = anyhow::Result<hyperqueue::server::autoalloc::verif::AllocationStatusMap>,
+            >,
+        >,
+    > {
+        Box::pin(async { Err(anyhow::anyhow!("no batch system in the cluster engine")) })
+    }
+
+    fn remove_allocation(
+        &self,
+        _allocation: &hyperqueue::server::autoalloc::Allocation,
+    ) -> Pin<Box<dyn Future<Output = anyhow::Result<()>>>> {
+        Box::pin(async { Ok(()) })
+    }
+}
+
 /* ---------------------------------------------------------------------------------------- */
 /* Journal                                                                                  */
 /* ---------------------------------------------------------------------------------------- */
@@ -441,6 +496,9 @@ pub struct Incarnation {
     pub state_ref: StateRef,
     pub senders: Senders,
     _autoalloc_process: Pin<Box<dyn Future<Output = ()>>>,
+    /// The real autoalloc state (queue bookkeeping and ids); no scheduling ticks are run here,
+    /// that is the autoalloc engine's job. The service behind `senders.autoalloc` stays a sink.
+    pub autoalloc: hyperqueue::server::autoalloc::verif::SimAutoAlloc,
     listener_rx: UnboundedReceiver<Event>,
     pub journal: Option<JournalSim>,
     pub server_uid: String,
@@ -678,6 +736,12 @@ impl World {
         let server_ref = server.server_ref();
         let (autoalloc_service, autoalloc_process) =
             create_autoalloc_service(server_ref.clone(), queue_id_initial, events.clone());
+        // MIRROR: create_autoalloc_service creates the state with the restored queue id counter
+        let autoalloc = hyperqueue::server::autoalloc::verif::SimAutoAlloc::new(
+            server_ref.clone(),
+            events.clone(),
+            queue_id_initial,
+        );
         let senders = Senders {
             server_control: server_ref.clone(),
             events: events.clone(),
@@ -696,6 +760,7 @@ impl World {
             state_ref,
             senders,
             _autoalloc_process: Box::pin(autoalloc_process),
+            autoalloc,
             listener_rx: lrx,
             journal,
             server_uid: server_uid.clone(),
@@ -772,9 +837,28 @@ impl World {
                         self.last_restore = Some(info);
                         return Err(p);
                     }
+                    // MIRROR: bootstrap::start_server hands the restored queues to autoalloc
+                    let rt = &self.rt;
+                    let aa = &mut inc.autoalloc;
+                    let r = catch(move || {
+                        for q in queues {
+                            let (res, _) = rt.block_on(aa.add_queue(
+                                PathBuf::from("/nonexistent/hqsim-cluster"),
+                                q.params,
+                                Some(q.queue_id),
+                                q.worker_resources,
+                                Box::new(NullQueueHandler),
+                            ));
+                            res.unwrap();
+                        }
+                    });
+                    if let Err(p) = r {
+                        self.inc = Some(inc);
+                        self.last_restore = Some(info);
+                        return Err(p);
+                    }
                 }
             }
-            // the autoalloc stub continues with what the restore hands to the real service
             self.queue_next_id = info.queue_id_counter;
             self.live_queues = info.queues.clone();
             self.last_restore = Some(info);
@@ -1181,43 +1265,51 @@ impl World {
             }
             Action::CrashServer { .. } => unreachable!(),
             Action::QueueEvent { create, id } => {
-                let Some(inc) = &self.inc else { return false };
+                let Some(inc) = &mut self.inc else { return false };
                 if *create {
-                    let qid = self.queue_next_id;
-                    self.queue_next_id += 1;
+                    // the real AddQueue handling (create_queue: id from the real counter,
+                    // AllocationQueueCreated event)
+                    let params = hyperqueue::server::autoalloc::QueueParameters {
+                        manager: hyperqueue::common::manager::info::ManagerType::Slurm,
+                        max_workers_per_alloc: 1,
+                        backlog: 1,
+                        timelimit: Duration::from_secs(3600),
+                        name: None,
+                        max_worker_count: None,
+                        min_utilization: 0.0,
+                        additional_args: Vec::new(),
+                        worker_start_cmd: None,
+                        worker_stop_cmd: None,
+                        worker_wrap_cmd: None,
+                        cli_resource_descriptor: None,
+                        worker_args: Vec::new(),
+                        idle_timeout: None,
+                    };
+                    let (res, _) = self.rt.block_on(inc.autoalloc.add_queue(
+                        PathBuf::from("/nonexistent/hqsim-cluster"),
+                        params,
+                        None,
+                        None,
+                        Box::new(NullQueueHandler),
+                    ));
+                    let Ok(qid) = res else { return false };
+                    self.queue_next_id = qid + 1;
                     self.live_queues.push(qid);
                     // (the allocation that autoalloc would submit for the queue; workers that
                     // connect "from it" make the queue learn their resources)
-                    let alloc_event = (qid, format!("simalloc-{qid}"));
-                    inc.senders.events.on_allocation_queue_created(
-                        qid,
-                        hyperqueue::server::autoalloc::QueueParameters {
-                            manager: hyperqueue::common::manager::info::ManagerType::Slurm,
-                            max_workers_per_alloc: 1,
-                            backlog: 1,
-                            timelimit: Duration::from_secs(3600),
-                            name: None,
-                            max_worker_count: None,
-                            min_utilization: 0.0,
-                            additional_args: Vec::new(),
-                            worker_start_cmd: None,
-                            worker_stop_cmd: None,
-                            worker_wrap_cmd: None,
-                            cli_resource_descriptor: None,
-                            worker_args: Vec::new(),
-                            idle_timeout: None,
-                        },
-                    );
                     inc.senders
                         .events
-                        .on_allocation_queued(alloc_event.0, alloc_event.1, 1);
+                        .on_allocation_queued(qid, format!("simalloc-{qid}"), 1);
                     true
                 } else {
                     let Some(pos) = self.live_queues.iter().position(|q| q == id) else {
                         return false;
                     };
+                    let (res, _) = self.rt.block_on(inc.autoalloc.remove_queue(*id, true));
+                    if res.is_err() {
+                        return false;
+                    }
                     self.live_queues.remove(pos);
-                    inc.senders.events.on_allocation_queue_removed(*id);
                     true
                 }
             }
